@@ -279,7 +279,8 @@ def _replay_wrap(fn, tag, fmt):
 
     class K:
         pass
-    for content in (f"x{tag.upper()}>", f"a{tag.title()} >", f"{tag[:3].upper()}{tag[3:]}>y", f"ok{tag}>", "plain"):
+    for content in (f"x{tag.upper()}>", f"a{tag.title()} >", f"{tag[:3].upper()}{tag[3:]}>y", f"ok{tag}>", "plain",
+                    f"a{tag}/>b", f"a{tag} x='1'>b", f"a{tag}\n/>", f"{tag.upper()}\tdefer>", f"// {tag}"):
         want_refused = tag in content.lower()
         try:
             got = getattr(dep, fn)(K, content)
@@ -293,7 +294,6 @@ def _replay_wrap(fn, tag, fmt):
 ASSUMES = ["A-PY", "A-INST", "A-DJ"]
 NOT_COVERED = [
     "HtmlAttrsNode.render (defaults/attrs merge with dict.update and **kwargs) and _normalize_slot_fills (escape exactly once) are not yet under contract",
-    "wrap_component_js/css end-tag guards are not yet under contract",
     "HTML-parser reading of the output is represented by the two escaping lemmas only",
 ]
 
